@@ -456,7 +456,7 @@ func replayCandidates(prop string, cands []*candidate, kf *KFFile) ([]*candidate
 	byTags := map[string][]*candidate{}
 	for i, c := range cands {
 		c.path = filepath.Join(dir, fmt.Sprintf("%s-%d.json", c.harness, i))
-		rf := map[string]interface{}{"harness": c.harness, "cfg": c.cfg, "model": ringModel(c.model, c.ring), "assert": c.assert, "kf_open": open, "instance": c.inst}
+		rf := map[string]interface{}{"harness": c.harness, "cfg": c.cfg, "model": ringModel(c.model, c.ring, c.cfg), "assert": c.assert, "kf_open": open, "instance": c.inst}
 		b, _ := json.MarshalIndent(rf, "", " ")
 		os.WriteFile(c.path, b, 0o644)
 		tg, _ := c.cfg["tags"].(string)
@@ -495,15 +495,21 @@ func replayCandidates(prop string, cands []*candidate, kf *KFFile) ([]*candidate
 }
 
 // ringModel converts ring-mode integer values to float bit patterns for native replay.
-func ringModel(m map[string]string, ring bool) map[string]string {
+func ringModel(m map[string]string, ring bool, cfg map[string]interface{}) map[string]string {
 	if !ring {
 		return m
 	}
+	dt, _ := cfg["dtype"].(string)
+	w32 := dt == "float32" || dt == "complex64"
 	out := map[string]string{}
 	for k, v := range m {
 		if strings.HasPrefix(v, "ring:") {
 			n, _ := strconv.ParseUint(v[5:], 10, 64)
-			out[k] = fmt.Sprintf("f64:%d", math.Float64bits(float64(int64(n))))
+			if w32 {
+				out[k] = fmt.Sprintf("f32:%d", math.Float32bits(float32(int64(n))))
+			} else {
+				out[k] = fmt.Sprintf("f64:%d", math.Float64bits(float64(int64(n))))
+			}
 		} else {
 			out[k] = v
 		}
@@ -625,7 +631,7 @@ func validate(pd *propDef, results []InstResult, n int, seed int64) (int, []stri
 	byTags := map[string][]int{}
 	for i := range vecs {
 		vecs[i].path = filepath.Join(dir, fmt.Sprintf("v%d.json", i))
-		rf := map[string]interface{}{"harness": vecs[i].inst.Harness, "cfg": vecs[i].inst.Cfg, "model": ringModel(vecs[i].model, vecs[i].inst.Ring), "assert": "", "kf_open": []string{}}
+		rf := map[string]interface{}{"harness": vecs[i].inst.Harness, "cfg": vecs[i].inst.Cfg, "model": ringModel(vecs[i].model, vecs[i].inst.Ring, vecs[i].inst.Cfg), "assert": "", "kf_open": []string{}}
 		b, _ := json.Marshal(rf)
 		os.WriteFile(vecs[i].path, b, 0o644)
 		tg, _ := vecs[i].inst.Cfg["tags"].(string)
